@@ -58,6 +58,9 @@ def parseI64? (s : String) : Option Int := (parseInt? s).bind fun i => if inInt6
 
 def parseOp (ws : List String) : Option Op :=
   match ws with
+  | ["set", k, v, "p"] => do let _ ← parseNat? v; some (.setF (← parseNat? k))
+  | ["sia", k, v, "p"] => do let _ ← parseNat? v; some (.setIfAbsentF (← parseNat? k))
+  | ["sgr", k, v, "p"] => do let _ ← parseNat? v; some (.setGetRemovedF (← parseNat? k))
   | ["set", k, v, sz] => do some (.set (← parseNat? k) (← parseNat? v) (← parseI64? sz))
   | ["sia", k, v, sz] => do some (.setIfAbsent (← parseNat? k) (← parseNat? v) (← parseI64? sz))
   | ["sgr", k, v, sz] => do some (.setGetRemoved (← parseNat? k) (← parseNat? v) (← parseI64? sz))
@@ -119,10 +122,18 @@ def step (st : St) (line : String) : St × String :=
       match st with
       | .none => (st, "bad-op")
       | .single kd s =>
+        -- sized cache: the script value 0 is a nil `Value` (its Size() cannot be called); tiny values are never sized
+        let op : Op := match kd, op with
+          | .sized, .set k 0 _ => .setF k
+          | .sized, .setIfAbsent k 0 _ => .setIfAbsentF k
+          | .sized, .setGetRemoved k 0 _ => .setGetRemovedF k
+          | _, o => o
+        if kd == .tiny && op.faults then (st, "bad-op") else
         let r := Nv.C04.step (cfgOf kd) kd s op
         (.single kd r.1, s!"{showOut r.2} | {snapshot r.1}")
       | .wide kd u rt w =>
         match op with
+        | .setF .. | .setIfAbsentF .. | .setGetRemovedF .. => (st, "bad-op")
         | .set .. | .get .. | .peek .. | .exist .. | .delete .. =>
           if (op.key?.getD 0) ≥ u then (st, "bad-op") else
           match wideStep (cfgOf kd) kd rt.idx w op with
